@@ -18,6 +18,7 @@ is re-run through `/venv/bin/python /repo/meson.py rewrite ...` in a scratch cop
 from __future__ import annotations
 
 import argparse
+import collections
 import contextlib
 import copy
 import hashlib
@@ -438,6 +439,11 @@ def read_disk_tree(root: str) -> T.Dict[str, T.Optional[str]]:
 # =============================================================================================
 # 4. statement alignment (locality)
 
+def _head(stmt: str) -> str:
+    m = re.search(r'[(\[]', stmt)
+    return stmt[:m.start()] if m else stmt
+
+
 def align(stmts: T.List[str], after: str) -> T.List[T.Tuple[int, int, str]]:
     """-> runs (i, j, text): original statements i..j-1 were replaced by `text`; everything else is
     byte-identical and in order.  A pure insertion is a run with i == j."""
@@ -458,6 +464,16 @@ def align(stmts: T.List[str], after: str) -> T.List[T.Tuple[int, int, str]]:
             f = after.find(stmts[k], p, q)
             if f >= 0 and stmts[k].strip():
                 return rec(i, k, p, f) + rec(k + 1, j, f + len(stmts[k]), q)
+        # a blank statement between two changed ones: anchor it together with the head of the statement that follows it (the text
+        # in front of the first bracket lies outside every node the tool re-prints, so it is byte-identical in a correct edit)
+        for k in range(i + 1, j - 1):
+            if stmts[k] and not stmts[k].strip() and stmts[k + 1].strip():
+                anchor = stmts[k] + _head(stmts[k + 1])
+                f = after.find(anchor, p, q)
+                while f >= 0 and not (f == p or after[f - 1] == '\n'):
+                    f = after.find(anchor, f + 1, q)
+                if f >= 0:
+                    return rec(i, k, p, f) + rec(k + 1, j, f + len(stmts[k]), q)
         return [(i, j, after[p:q])]
 
     return rec(0, n, 0, len(after))
@@ -1033,8 +1049,11 @@ def snap_diff(exp: dict, got: dict, may: dict) -> T.Optional[T.Tuple[str, str]]:
         for field in ('sources', 'extra'):
             if te[field] != tg[field]:
                 lo = may.get((te['name'], field))
-                if lo is not None and set(lo[0]) <= set(tg[field]) <= set(lo[1]) and len(set(tg[field])) == len(tg[field]):
-                    continue
+                if lo is not None:
+                    # bounds as multisets: everything expected is there, nothing occurs more often than expected / than it did before
+                    cg, cl, cu = collections.Counter(tg[field]), collections.Counter(lo[0]), collections.Counter(lo[1])
+                    if not (cl - cg) and not (cg - cu):
+                        continue
                 return (field, f'target {te["name"]!r}: {field} expected {te[field]}, file now means {tg[field]}')
         if te.get('_new'):
             if te['fn'] != tg['fn'] or te['dir'] != tg['dir']:
@@ -1178,8 +1197,12 @@ class Judge:
             for (tname, field), files in may_files.items():
                 # sources that may legitimately stay: bounds [exp, exp + may]
                 te = next((t for t in exp['targets'] if t['name'] == tname), None)
+                tb = next((t for t in snap['targets'] if t['name'] == tname), None)
                 if te is not None:
-                    may[(tname, field)] = (list(te[field]), sorted(set(te[field]) | files))
+                    upper = collections.Counter(te[field])
+                    for f in files:        # a file that may stay: as often as it was there before the step
+                        upper[f] = max(upper[f], tb[field].count(f) if tb is not None else 0, 1)
+                    may[(tname, field)] = (list(te[field]), sorted(upper.elements()))
             before_texts = dict(texts)
             r = self.run(self.root, step_argv(step))
             self.outcomes.append(r.kind)
@@ -1598,7 +1621,9 @@ DEP_KW: T.List[T.Tuple[str, str]] = [
 OPTION_VALUES = {'buildtype': ['release', 'debug', 'plain', 'minsize'], 'warning_level': ['0', '1', '2', '3'], 'werror': ['true', 'false'],
                  'optimization': ['0', '2', 's'], 'default_library': ['static', 'shared', 'both'], 'unity': ['on', 'off'],
                  'prefix': ['/opt/x', '/usr'], 'strip': ['true', 'false'], 'layout': ['mirror', 'flat'], 'b_lto': ['true', 'false'],
-                 'debug': ['true', 'false']}
+                 'debug': ['true', 'false'], 'unity_size': ['4', '8'], 'backend': ['ninja', 'none'], 'backend_max_links': ['2', '3']}
+# option names that are a proper prefix of another option name: a default-options command on the short one must leave the long one alone
+OPTION_SIBLINGS = {'unity': 'unity_size', 'backend': 'backend_max_links'}
 DEP_NAMES = ['zlib', 'threads', 'glib-2.0', 'libfoo', 'openssl', 'dl']
 
 
@@ -1738,6 +1763,112 @@ class TreeGen:
             g.env = saved_env
         return self.fallback(t)
 
+    # -- expressions built around ONE operand position that is only right with parentheses (the shapes the property names:
+    #    "parenthesised logic, arithmetic, method calls on expressions"); operands are literals and the literal variables
+    def trap(self, t: tuple) -> T.Optional[list]:
+        def par(x: list) -> list:
+            return ['paren', x]
+
+        def I() -> list:
+            names = [k for k, v in self.values.items() if isinstance(v, int) and not isinstance(v, bool)]
+            if names and self.chance(40):
+                return ['id', self.pick(names)]
+            return ['int', 1 + self.i(9), 'd']
+
+        def B() -> list:
+            names = [k for k, v in self.values.items() if isinstance(v, bool)]
+            if names and self.chance(50):
+                return ['id', self.pick(names)]
+            return ['bool', bool(self.i(2))]
+
+        def S() -> list:
+            names = [k for k, v in self.values.items() if isinstance(v, str)]
+            if names and self.chance(40):
+                return ['id', self.pick(names)]
+            return ['str', self.pick(['-DX=', 'foo', 'a b', 'lib', 'x_']), 's']
+
+        def int_trap() -> list:
+            k = self.i(11)
+            if k == 0:
+                return ['bin', '-', I(), par(['bin', self.pick(['-', '+']), I(), I()])]
+            if k == 1:
+                return ['bin', '/', I(), par(['bin', self.pick(['*', '/', '%']), I(), I()])]
+            if k == 2:
+                return ['bin', '*', I(), par(['bin', self.pick(['/', '%']), I(), I()])]
+            if k == 3:
+                return ['bin', '%', I(), par(['bin', self.pick(['%', '*', '/']), I(), I()])]
+            if k == 4:
+                return ['bin', self.pick(['*', '/', '%']), par(['bin', self.pick(['+', '-']), I(), I()]), I()]
+            if k == 5:
+                return ['bin', self.pick(['*', '/', '%']), I(), par(['bin', self.pick(['+', '-']), I(), I()])]
+            if k == 6:
+                return ['neg', par(['bin', self.pick(['+', '-']), I(), I()])]
+            if k == 7:
+                return ['bin', '-', I(), par(['neg', par(['bin', '-', I(), I()])])]
+            if k == 8:
+                return ['bin', '+', par(['tern', B(), I(), I()]), I()]
+            if k == 9:
+                return ['idx', par(['tern', B(), ['arr', [I(), I()]], ['arr', [I(), I()]]]), ['int', self.i(2), 'd']]
+            return ['idx', ['arr', [I(), I(), I()]], ['bin', '%', par(['bin', '+', I(), I()]), ['int', 3, 'd']]]
+
+        def bool_trap() -> list:
+            k = self.i(12)
+            if k == 0:
+                return ['not', par(['bin', self.pick(['and', 'or']), B(), B()])]
+            if k == 1:
+                return ['bin', 'and', par(['bin', 'or', B(), B()]), B()]
+            if k == 2:
+                return ['bin', 'and', B(), par(['bin', 'or', B(), B()])]
+            if k == 3:
+                return ['not', par(['bin', self.pick(['==', '!=']), I(), I()])]
+            if k == 4:
+                return ['bin', self.pick(['==', '!=']), par(['bin', 'in', I(), ['arr', [I(), I()]]]), B()]
+            if k == 5:
+                return ['tern', par(['tern', B(), B(), B()]), B(), B()]
+            if k == 6:
+                return ['bin', self.pick(['==', '!=']), par(['bin', self.pick(['==', '!=']), B(), B()]), B()]
+            if k == 7:
+                return ['bin', self.pick(['<', '>', '==', '<=']), int_trap(), I()]
+            if k == 8:
+                return ['bin', 'or', par(['tern', B(), B(), B()]), B()]
+            if k == 9:
+                return ['bin', 'and', ['not', par(['bin', 'or', B(), B()])], par(['bin', 'not in', I(), ['arr', [I()]]])]
+            if k == 10:
+                return ['bin', '==', par(['bin', 'and', B(), B()]), par(['bin', 'or', B(), B()])]
+            return ['meth', par(['bin', '+', S(), S()]), self.pick(['startswith', 'contains']), [[None, S()]]]
+
+        def str_trap() -> list:
+            k = self.i(8)
+            if k == 0:
+                return ['bin', '+', S(), ['meth', par(int_trap()), 'to_string', []]]
+            if k == 1:
+                return ['meth', par(['bin', '+', S(), S()]), self.pick(['to_upper', 'to_lower', 'strip', 'underscorify']), []]
+            if k == 2:
+                return ['bin', '+', par(['tern', B(), S(), S()]), S()]
+            if k == 3:
+                return ['idx', par(['tern', B(), ['arr', [S()]], ['arr', [S()]]]), ['int', 0, 'd']]
+            if k == 4:
+                return ['idx', ['arr', [S(), S()]], ['bin', '%', par(['bin', '+', I(), I()]), ['int', 2, 'd']]]
+            if k == 5:
+                return ['bin', '+', S(), ['meth', par(['neg', par(['bin', '+', I(), I()])]), 'to_string', []]]
+            if k == 6:
+                return ['tern', par(['bin', self.pick(['and', 'or']), B(), par(['bin', '==', I(), I()])]), S(), S()]
+            return ['meth', ['str', '@0@-@1@', 's'], 'format', [[None, par(['bin', '-', I(), par(['bin', '-', I(), I()])])], [None, par(['bin', '+', S(), S()])]]]
+
+        make = {'int': int_trap, 'bool': bool_trap, 'str': str_trap}.get(t[0])
+        if make is None:
+            return None
+        for _ in range(4):
+            e = make()
+            try:
+                self.ref(e)
+                e2 = self.sanitize(e)
+                self.ref(e2)
+            except _Reject:
+                continue
+            return e2
+        return None
+
     def fallback(self, t: tuple) -> list:
         if t[0] == 'bool':
             return ['bool', bool(self.i(2))]
@@ -1804,20 +1935,28 @@ class TreeGen:
         RG = self.RG
         lit = self.chance(30)
         d = 0 if lit else 1 + self.i(3)
+
+        def ex(t: tuple, depth: int) -> list:
+            if not lit and self.chance(45):
+                e = self.trap(t)
+                if e is not None:
+                    return e
+            return self.expr(t, depth)
+
         if typ == 'bool':
-            return self.expr(RG.BOOL, d)
+            return ex(RG.BOOL, d)
         if typ == 'boollit':
             return ['bool', False]
         if typ == 'str':
-            return self.expr(RG.STR, d)
+            return ex(RG.STR, d)
         if typ == 'strlist':
             if self.chance(15):
-                return self.expr(RG.STR, d)
+                return ex(RG.STR, d)
             if self.chance(20):
                 return self.expr(RG.ARR(RG.STR, None), d)
-            return ['arr', [self.expr(RG.STR, max(d - 1, 0)) if not self.chance(40) else self.fallback(RG.STR) for _ in range(1 + self.i(3))]]
+            return ['arr', [ex(RG.STR, max(d - 1, 0)) if not self.chance(40) else self.fallback(RG.STR) for _ in range(1 + self.i(3))]]
         if typ == 'anylist':
-            return ['arr', [self.expr(self.pick([RG.INT, RG.STR]), d) for _ in range(1 + self.i(2))]]
+            return ['arr', [ex(self.pick([RG.INT, RG.STR]), d) for _ in range(1 + self.i(2))]]
         if typ == 'optlist':
             if self.chance(40):
                 return ['dict', [[['str', 'c_std', 's'] if not self.chance(25) else ['bin', '+', ['str', 'c_', 's'], ['str', 'std', 's']],
@@ -1860,6 +1999,9 @@ class TreeGen:
                 k = self.pick(sorted(OPTION_VALUES))
                 if k not in keys:
                     keys.append(k)
+                sib = OPTION_SIBLINGS.get(k)
+                if sib and sib not in keys and self.chance(60):
+                    keys.insert(self.i(len(keys) + 1), sib)
             form = self.i(10)
             if form < 6:
                 els = [['str', f'{k}={self.pick(OPTION_VALUES[k])}', 's'] for k in keys]
@@ -1935,11 +2077,14 @@ class TreeGen:
         elif shape == 'var_plus':
             v = newvar(['arr', self.strs(names[:1])])
             rest = names[1:]
+            bare = False
             if rest:
                 add: list = ['arr', self.strs(rest)] if len(rest) > 1 or self.chance(60) else self.strs(rest)[0]
+                bare = add[0] == 'str'
                 out['stmts'].append(self.add(rel, ['plusassign', v, add]))
             out['args'] = [['id', v]]
-            out['files'] = lits
+            # `src += 'x.c'` (a bare string, no list): the documentation and the fixtures only show `+= [...]`; a removal may be refused
+            out['files'] = lits[:1] + [(n, tdir, not bare, False) for n in rest]
         elif shape == 'alias':
             v = newvar(['arr', self.strs(names)])
             w = newvar(['id', v])
@@ -2010,6 +2155,9 @@ class TreeGen:
         for pi, p in enumerate(pieces):
             if kw_sources is None and pi == len(pieces) - 1 and self.chance(12):
                 kw_sources = p['args'][0] if len(p['args']) == 1 else ['arr', p['args']]
+                if kw_sources[0] == 'str':
+                    # `sources: 'x.c'`: a string that is not an element of any list or call; a removal may be refused (same as extra_files: 'a.h')
+                    p['files'] = [(n, d, False, sh) for n, d, _lit, sh in p['files']]
             else:
                 pos.extend(p['args'])
         # extra_files
@@ -2058,7 +2206,7 @@ class TreeGen:
         else:
             idx = self.add(rel, ['expr', call])
         self.tmeta[name] = {
-            'name': name, 'var': var, 'fn': fn, 'dir': tdir, 'loc': [rel, idx],
+            'name': name, 'var': var, 'fn': fn, 'dir': tdir, 'loc': [rel, idx], 'nt': nontrivial_expr(call),
             'src_stmts': [[rel, i] for p in pieces for i in p['stmts']] + [l for p in pieces for l in p.get('foreign', [])],
             'src_vars': [v for p in pieces for v in p['vars']],
             'src_files': {os.path.normpath(os.path.join(d, s)): {'literal': lit, 'shared': sh} for p in pieces for s, d, lit, sh in p['files']},
@@ -2073,11 +2221,12 @@ class TreeGen:
         """'all' literal scalars / list of literal scalars, 'list' = array literal with non-literal elements, 'no'"""
         def scalar(x: list) -> bool:
             return x[0] in ('str', 'bool', 'id') and (x[0] != 'str' or x[2] == 's')
-        if scalar(v):
-            return 'all'
-        if v[0] == 'arr':
-            return 'all' if all(scalar(x) for x in v[1]) else 'list'
-        return 'no'
+        els = v[1] if v[0] == 'arr' else [v]
+        if all(scalar(x) for x in els):
+            # 'ids': identifiers among the elements (the tool compares element TEXT: a string value that an identifier contributes
+            # cannot be removed by value)
+            return 'ids' if any(x[0] == 'id' for x in els) else 'all'
+        return 'list' if v[0] == 'arr' else 'no'
 
     def dependency(self) -> None:
         name = self.pick([n for n in DEP_NAMES if n not in self.depnames] or ['extra' + str(self.n)])
@@ -2212,6 +2361,11 @@ class TreeGen:
         def cur(name: str) -> dict:
             return next(t for t in snap['targets'] if t['name'] == name)
 
+        def subject() -> str:
+            # the property is about the OTHER arguments of the re-printed statement: prefer targets whose call carries a non-trivial one
+            hot = [n for n in alive if self.tmeta[n].get('nt')]
+            return self.pick(hot) if hot and self.chance(60) else self.pick(alive)
+
         def src_cmd(name: str, op: str, files: T.List[str]) -> dict:
             m = tmeta(name)
             extra = op.startswith('extra')
@@ -2249,11 +2403,11 @@ class TreeGen:
                 kinds = [(w, k) for w, k in kinds if k in ('target_add', 'kw_project', 'defopt', 'error', 'kw_dep')]
             k = self.g.weighted(kinds)
             if k == 'src_add':
-                name = self.pick(alive)
+                name = subject()
                 push(src_cmd(name, 'src_add', new_files(name, '.c')))
                 self.tmeta[name].setdefault('fresh', set()).update(cmds[-1]['sources'])
             elif k == 'src_rm':
-                name = self.pick(alive)
+                name = subject()
                 have = cur(name)['sources']
                 if not have:
                     return
@@ -2263,14 +2417,14 @@ class TreeGen:
                     return
                 push(src_cmd(name, 'src_rm', files))
             elif k == 'extra_add':
-                name = self.pick(alive)
+                name = subject()
                 if tmeta(name).get('extra_scalar') and 'extra-scalar' in self.excluded:
                     self.excl['extra_files_add on a target whose extra_files is a single string (effect/extra_files_add:no-longer-evaluates)'] += 1
                     return
                 push(src_cmd(name, 'extra_files_add', new_files(name, '.h')))
                 self.tmeta[name].setdefault('fresh', set()).update(cmds[-1]['sources'])
             elif k == 'extra_rm':
-                name = self.pick(alive)
+                name = subject()
                 have = cur(name)['extra']
                 if not have:
                     return
@@ -2290,7 +2444,7 @@ class TreeGen:
                                     'src_files': {os.path.normpath(os.path.join(sub, s)): {'literal': True, 'shared': False} for s in srcs},
                                     'extra_stmts': [], 'extra_vars': [idvar + '_sources', idvar + '_exe', '_lib'], 'extra_files': {}, 'kwlit': {}, 'appended': True}
             elif k == 'target_rm':
-                name = self.pick(alive)
+                name = subject()
                 m = tmeta(name)
                 if m.get('var') and self.var_used_elsewhere(m['var'], m['loc']):
                     self.excl['target_rm of a target whose variable is used by a later statement (would leave a dangling name)'] += 1
@@ -2310,7 +2464,7 @@ class TreeGen:
             elif k in ('kw_target', 'kw_project', 'kw_dep'):
                 fn = {'kw_target': 'target', 'kw_project': 'project', 'kw_dep': 'dependency'}[k]
                 if fn == 'target':
-                    name = self.pick(alive)
+                    name = subject()
                     m = tmeta(name)
                     ident, priv = addr(name)
                     args = cur(name)['args']
@@ -2340,12 +2494,13 @@ class TreeGen:
                         if kw[key] is _NOVAL:
                             del kw[key]
                             continue
-                        kwlit[key] = 'all'
+                        kwlit[key] = 'ids' if table[key] == 'idlist' else 'all'
                         if op == 'delete':
                             kwlit.pop(key, None)
                 else:
                     lkeys = [x for x in sorted(table) if table[x] in LIST_TYPES and x != 'default_options']
-                    cand = [x for x in lkeys if kwlit.get(x, 'all') != 'no' and (op == 'add' or kwlit.get(x, 'all') == 'all')]
+                    cand = [x for x in lkeys if kwlit.get(x, 'all') != 'no' and
+                            (op == 'add' or kwlit.get(x, 'all') == ('ids' if table[x] == 'idlist' and x in present else 'all'))]
                     if not cand:
                         return
                     key = self.pick([x for x in cand if x in present] or cand)
@@ -2355,8 +2510,8 @@ class TreeGen:
                         if v is _NOVAL:
                             return
                         kw[key] = v
-                        if kwlit.get(key, 'all') == 'all':
-                            kwlit[key] = 'all'
+                        if kwlit.get(key, 'all') in ('all', 'ids'):
+                            kwlit[key] = 'ids' if table[key] == 'idlist' else kwlit.get(key, 'all')
                     elif op == 'remove':
                         if table[key] == 'idlist':
                             names = [n for n, val in env.items() if val in curv]
@@ -2390,8 +2545,11 @@ class TreeGen:
                 nonlit = set(self.popt_nonliteral)
                 op = self.pick(['set', 'set', 'delete'])
                 keys: T.List[str] = []
+                have = [opt_split(x)[0] for x in entries if isinstance(x, str)]
+                have = [x for x in have if x in OPTION_VALUES and x != 'b_lto']
                 for _ in range(1 + self.i(2)):
-                    kk = self.pick([x for x in sorted(OPTION_VALUES) if x not in ('b_lto',)])
+                    # b_lto: a base option, unknown to the rewriter without a compiler ("Unknown options")
+                    kk = self.pick(have) if have and self.chance(50) else self.pick([x for x in sorted(OPTION_VALUES) if x not in ('b_lto',)])
                     if kk not in keys and kk not in nonlit:
                         keys.append(kk)
                 if not keys:
@@ -2414,7 +2572,7 @@ class TreeGen:
 
         plan = self.g.weighted([(7, 1), (6, 2), (3, 3), (4, 'law')])
         if plan == 'law' and alive:
-            name = self.pick(alive)
+            name = subject()
             which = self.i(3)
             if which == 0:
                 fs = new_files(name, '.c')
